@@ -16,7 +16,7 @@ TABLE = {
     "C02": (
         "generated grammars (four families; terminals as strings, ints incl. 0, sparse ints, tuples; signed rational weights) x exhaustive short strings; differential against a definitional inside-weight reference in exact (Boolean, tropical, free polynomial, rational) and float models; metamorphic rule order / renaming / agenda tie-break salt / hash seed",
         "Every parser against an independent derivation-sum reference on all strings up to length 3-4; in the free semiring equality of derivation multisets. Exploration with exact oracles, not a proof.",
-        "Trusted: vf.cfgref.Inside (self-tested vs brute force). Float regimes use rtol 1e-8 + atol 1e-10. Bounds: <=4 nonterminals (5 thorough), <=8 rules (10), strings <=3 (4).",
+        "Trusted: vf.cfgref.Inside (self-tested vs brute force). Float regimes use rtol 1e-7 + atol 1e-10. Bounds: <=4 nonterminals (5 thorough), <=8 rules (10), strings <=3 (4).",
     ),
     "C03": (
         "generated grammars x exhaustive short prefixes; oracle = Bar-Hillel product with the deterministic automaton of p.V* then least fixed point; exact on finite languages (free / rational semirings)",
@@ -26,7 +26,7 @@ TABLE = {
     "C04": (
         "generated convergent grammars x three LM back-ends x contexts; oracle = conditionals from reference prefix/inside/total weights; long contexts (600-1500 tokens) against exact Fraction forward vectors of a generated automaton; tie-break salts, hash seeds",
         "Normalisation, proportionality to prefix weights, chain rule, back-end agreement, un-normalised weights = parser weights, zero on non-viable contexts, rescaled parser far below 1e-300, plain parser while the prefix weight is still representable (subnormal window 1e-315..1e-309). Exploration.",
-        "Trusted: vf.cfgref; Fractions for long contexts. rtol 1e-8 (1e-6 long).",
+        "Trusted: vf.cfgref; Fractions for long contexts. rtol 1e-6.",
     ),
     "C05": (
         "stateful (Hypothesis RuleBasedStateMachine): histories of p_next / call / chart / clear_cache / grammar transformations / cold long contexts / one sweep over all short contexts (incl. complete sentences ending in EOS) in a drawn order / the caller's own list edited in place / the parser underneath a language model, on one object; model = fresh object per query; invariant after every step",
@@ -46,7 +46,7 @@ TABLE = {
     "C08": (
         "generated convergent / idempotent / non-recursive grammars; oracle = Kleene iteration of the full polynomial system in the model semiring; finite languages vs the sum of string weights; expectation pairs",
         "agenda, naive_bottom_up, treesum, expected_length against an independent least-fixed-point computation for every nonterminal, rule rotations and 16 hash seeds (pop orders), also after warm-up calls on the same object (trim, cnf, loose-tolerance runs). Exploration.",
-        "Convergence by construction; rtol 1e-8.",
+        "Convergence by construction; rtol 1e-7.",
     ),
     "C09": (
         "generated grammar x transducer / acceptor pairs; oracle = Bar-Hillel matrix equations against the epsilon-free cross-section of the transducer; composed grammar read as data and reference-evaluated",
@@ -106,7 +106,7 @@ TABLE = {
     "C20": (
         "generated convergent grammars (dominated, suite-style and PCFG-style weights whose per-head sums are exactly one); oracle = reference total / inside on the input and on the returned grammars read as data",
         "Per-head sums, total one, proportional string weights, EOS wrapping (default and caller-chosen end symbol) on all strings over V+EOS up to length 4. Exploration.",
-        "rtol 1e-8.",
+        "rtol 1e-7.",
     ),
 }
 
